@@ -498,6 +498,86 @@ pub fn make_send(p: SendParams) -> ScenarioFn {
     })
 }
 
+/// Inbound frames for *other* ids arrive while a local open is in flight.
+#[derive(Clone, Debug)]
+pub struct OpenRaceParams {
+    /// frames the peer sends while the open runs: (cmd, id)
+    pub noise: Vec<(u8, u32)>,
+}
+
+pub fn make_open_race(p: OpenRaceParams) -> ScenarioFn {
+    scenario(move || {
+        let p = p.clone();
+        async move {
+            let mut out = Outcome::default();
+            let link = peer_link(PipeCfg::new("s2c"), PipeCfg::new("c2s"));
+            let sess = match start_client_session(link.sess_r, link.sess_w, padding(STOP0), None, 0).await {
+                Ok(s) => s,
+                Err(e) => {
+                    out.viol("C02:start-failed", format!("{e}"));
+                    return out;
+                }
+            };
+            let peer = link.peer;
+            // pre-state: stream 1 is open and has received data
+            let (s1, _rx1) = match sess.open_stream().await {
+                Ok(x) => x,
+                Err(e) => {
+                    out.viol("C02:open-failed", format!("{e}"));
+                    return out;
+                }
+            };
+            sess.disable_buffering();
+            let _ = sess.write_data_frame(s1.id(), Bytes::from_static(b"d")).await;
+            peer.send(SERVER_SETTINGS, 0, b"v=2");
+            peer.send(PSH, 1, &[0x11; 3]);
+            settle().await;
+            // the race: an open in flight, noise frames arriving
+            let c = sess.clone();
+            let opener = tokio::spawn(async move {
+                hpoint("h.c02.race.open").await;
+                within(c.open_stream()).await
+            });
+            for (cmd, id) in &p.noise {
+                peer.send(*cmd, *id, if *cmd == PSH { &[0x33; 2] } else { b"" });
+            }
+            let (s2, _rx2) = match opener.await {
+                Ok(Some(Ok(x))) => x,
+                other => {
+                    out.viol("C02:open-failed", format!("racing open: {:?}", other.map(|o| o.map(|r| r.map(|_| ()).map_err(|e| e.to_string())))));
+                    return out;
+                }
+            };
+            settle().await;
+            // now the peer talks on the new stream and once more on the old one
+            peer.send(PSH, s2.id(), &[0x22; 4]);
+            let fin1 = p.noise.contains(&(FIN, 1));
+            if !fin1 {
+                peer.send(PSH, 1, &[0x11; 2]);
+            }
+            tokio::time::sleep(Duration::from_secs(1)).await;
+            let (b2, eof2) = drain_stream(&s2).await;
+            let (b1, eof1) = drain_stream(&s1).await;
+            out.obs = format!("s1={}B eof={} s2={}B eof={}", b1.len(), eof1, b2.len(), eof2);
+            if b2 != vec![0x22; 4] || eof2 {
+                out.viol(
+                    if b2.len() < 4 { "C02:bytes-disappeared" } else { "C02:stream-disturbed" },
+                    format!("stream {} (opened while frames {:?} for other ids arrived) read {:02x?} eof={eof2}; the peer sent 4 bytes 0x22 and no FIN for it", s2.id(), p.noise, b2),
+                );
+            }
+            let want1 = if fin1 { vec![0x11; 3] } else { vec![0x11; 5] };
+            if b1 != want1 || eof1 != fin1 {
+                out.viol("C02:stream-disturbed", format!("stream 1 read {:02x?} eof={eof1}, expected {:02x?} eof={fin1} (noise {:?})", b1, want1, p.noise));
+            }
+            if sess.is_closed() {
+                out.viol("C02:session-died", "session closed");
+            }
+            drop(peer);
+            out
+        }
+    })
+}
+
 pub fn send_params_json(p: &SendParams) -> serde_json::Value {
     json!({"part": "send-side", "writers": p.writers, "forward": p.forward, "up": p.up, "scheme": p.scheme_name})
 }
@@ -511,6 +591,12 @@ pub fn items(tier: Tier) -> Vec<DxItem> {
             let bound = if writers == 3 { b - 1 } else { b };
             v.push(DxItem::new(send_params_json(&p), make_send(p), bound));
         }
+    }
+    for noise in [vec![(FIN, 99u32)], vec![(FIN, 1)], vec![(PSH, 3)], vec![(SYNACK, 99)], vec![(PSH, 7), (FIN, 99)], vec![(FIN, 3), (PSH, 3), (SYNACK, 3)]] {
+        let p = OpenRaceParams { noise: noise.clone() };
+        let mut it = DxItem::new(json!({"part": "inbound-during-open", "noise": noise.iter().map(|(c, i)| format!("{}{}", cmd_name(*c), i)).collect::<Vec<_>>()}), make_open_race(p), b);
+        it.exec.long_yield = 4;
+        v.push(it);
     }
     v
 }
